@@ -77,6 +77,7 @@ func e2eChild() {
 	for i := uint64(0); i < uint64(a.Count); i++ {
 		e2eHistory(run, srv, a.First+i, a.Steps)
 		httpConc(run, srv, a.First+i)
+		wsEditRace(run, srv, a.First+i)
 	}
 	os.Exit(0)
 }
@@ -247,6 +248,7 @@ func main() {
 		run.FloorCounter("deletes_acked", 5)
 		run.FloorCounter("constant_size_chains_verified", int64(nConc/2))
 		run.FloorCounter("constant_size_refused_updates", 100)
+		run.FloorCounter("ws_edit_race_refused_edits_without_effect", 5)
 		run.FloorCounter("order_constraints_checked", 100)
 		run.FloorCounter("crash_points_hit", int64(run.Pick(60, 600)))
 		run.FloorCounter("error_injections_applied", int64(run.Pick(100, 1000)))
